@@ -138,6 +138,19 @@ func cmdCheck(args []string) int {
 		results = append(results, fr)
 		allPaths = append(allPaths, ex.paths...)
 	}
+	// lemmas: contract-only obligations
+	for _, k := range sortedKeys(p.Contracts) {
+		con := p.Contracts[k]
+		if con.Kind != "lemma" || !matchAny(k, pats) || !hasProp(contractProps(con), want) {
+			continue
+		}
+		ex := newLemmaExec(p, con, opts)
+		fr := &FuncResult{Key: k, Exec: ex}
+		fr.Err = ex.runLemma()
+		fr.Paths = ex.paths
+		results = append(results, fr)
+		allPaths = append(allPaths, ex.paths...)
+	}
 	// contracts that match no function are stale
 	var stale []string
 	for k, c := range p.Contracts {
